@@ -72,7 +72,13 @@ fn twin_case(rng: &mut StdRng, id: String, out: &mut Vec<Value>) {
     let opname = ["and", "or", "xor", "iff", "imp"];
     let k = rng.gen_range(0..5);
     let at = |i: usize| Ast::Atom(i);
-    let (labels, asts, paths): (Vec<String>, Vec<Ast>, &[&str]) = match rng.gen_range(0..4) {
+    let (labels, asts, paths): (Vec<String>, Vec<Ast>, &[&str]) = match rng.gen_range(0..6) {
+        // converse pairs: an implication and its converse over the same operands, in two conditions and inside one - whoever treats
+        // "one constant branch" as "commutative connective" (memo keys, swapped look-ups) confuses exactly these
+        4 => (vec!["m".into(), "n".into(), "o".into(), "x".into(), "y".into(), "z".into()],
+              vec![at(0), not(at(1)), at(2), imp(at(0), at(1)), imp(at(1), at(0)), and(imp(bin(k, at(0), at(2)), at(1)), imp(at(1), bin(k, at(0), at(2))))], &["native", "bridge", "hybrid"]),
+        5 => (vec!["m".into(), "n".into(), "x".into(), "y".into()],
+              vec![at(0), at(1), imp(iff(at(0), at(1)), xor(at(0), at(1))), imp(xor(at(0), at(1)), iff(at(0), at(1)))], &["native", "bridge", "hybrid"]),
         0 => (vec!["m".into(), "n,o".into(), "m,n".into(), "o".into(), "x".into(), "y".into()],
               vec![at(0), at(1), not(at(2)), at(3), bin(k, at(0), at(1)), bin(k, at(2), at(3))], &["native", "bridge", "hybrid"]),
         1 => (vec!["m".into(), "neg(m)".into(), "x".into(), "y".into()],
@@ -99,11 +105,20 @@ fn compile_given(rng: &mut StdRng, id: String, labels: Vec<String>, asts: Vec<As
     let sort = ["none", "lexi", "alphanum"][rng.gen_range(0..3)];
     // random contexts for the variables outside a statement's support (positions in the reported order)
     let contexts: Vec<Vec<usize>> = (0..3).map(|_| (1..=n).filter(|_| rng.gen_bool(0.5)).collect()).collect();
+    // every other case builds (and uses) an ADF from the same parser object BEFORE the sort: what is compiled afterwards must not care
+    let prebuild = rng.gen_bool(0.5);
     for path in paths.iter().copied() {
         let (t, s2) = (text.clone(), sort.to_string());
         let res = guarded(120, move || {
             let parser = AdfParser::default();
             parser.parse()(&t).expect("harness text must parse");
+            if prebuild {
+                let mut early = Adf::from_parser(&parser);
+                let _ = early.grounded();
+                if path != "native" {
+                    let _ = BdAdf::from_parser(&parser).grounded();
+                }
+            }
             sort_parser(&parser, &s2);
             let adf: Adf = match path {
                 "native" => Adf::from_parser(&parser),
